@@ -114,7 +114,7 @@ func checkC18(tier, replay string) int {
 		return 2
 	}
 	defer func() {
-		if m, _ := filepath.Glob(filepath.Join(pe.home, ".seccomp-profiler", "c18-*")); m != nil {
+		if m, _ := filepath.Glob(filepath.Join(pe.home, ".seccomp-profiler", fmt.Sprintf("c18-%d-*", os.Getpid()))); m != nil {
 			for _, f := range m {
 				os.Remove(f)
 			}
